@@ -219,4 +219,5 @@ package check
 //@   ensures[cmp] implies(isCmp(op) && result1 == nil, result0[0] == zero && result0[1] == one)
 //@   assume@after TryLsh#2 implies(result1, result0[0] != nil && result0[1] != nil)
 //@   assert@ret#12 [modshl] implies(op == t.IDXBinaryTildeModShiftL && result1 == nil && typeBounds[1] != nil && old(factsHold(q)) && inR(lb, wval(lhs)) && 0 <= wval(lhs), inR(result0, emod(wval(lhs) * pow2(wval(rhs)), bigval(typeBounds[1]) + 1)))
+//@   assert@ret#13 [modshl] implies(op == t.IDXBinaryTildeModShiftL && result1 == nil && typeBounds[1] != nil && old(factsHold(q)) && inR(lb, wval(lhs)) && 0 <= wval(lhs), inR(result0, emod(wval(lhs) * pow2(wval(rhs)), bigval(typeBounds[1]) + 1)))
 //@   modifies *q
